@@ -71,9 +71,9 @@ def valid_value(s, root, flavour, rng, include_optional, depth=0):
         if flavour == "falsy":
             v = 0.0
         elif flavour == "alt":
-            v = 3
+            v = 3 if "multipleOf" in s else 16.25
         elif flavour == "boundary":
-            v = 21.4
+            v = 21.4 if "multipleOf" in s else 2.675
         else:
             v = 1.5 if "multipleOf" not in s else 16.1
         if s.get("minimum") is not None and v < s["minimum"]:
